@@ -1375,10 +1375,36 @@ impl PrettyPrint for Statement<'_> {
                     .sum()
                     + m::operator(")")
             }
-            Statement::DefineStruct(StructInfo { name, fields, .. }) => {
+            Statement::DefineStruct(StructInfo {
+                name, kind, fields, ..
+            }) => {
+                let markup_type_parameters = match kind {
+                    StructKind::Definition(type_parameters) if !type_parameters.is_empty() => {
+                        m::operator("<")
+                            + Itertools::intersperse(
+                                type_parameters.iter().map(|(_, name, bound)| {
+                                    m::type_identifier(name.clone())
+                                        + match bound {
+                                            Some(TypeParameterBound::Dim) => {
+                                                m::operator(":")
+                                                    + m::space()
+                                                    + m::type_identifier("Dim")
+                                            }
+                                            None => m::empty(),
+                                        }
+                                }),
+                                m::operator(", "),
+                            )
+                            .sum()
+                            + m::operator(">")
+                    }
+                    _ => m::empty(),
+                };
+
                 m::keyword("struct")
                     + m::space()
                     + m::type_identifier(name.clone())
+                    + markup_type_parameters
                     + m::space()
                     + m::operator("{")
                     + if fields.is_empty() {
